@@ -128,12 +128,45 @@ CHECKS = {
         technique="deterministic simulation: call-history machine with an in-process simulated process pool (seeded "
                   "arrival orders), virtual clock, reference-evaluation oracle, interpreter-restart sweep over hash seeds",
     ),
+    "C33": dict(
+        engine="pipe",
+        level=dict(
+            category="exploration",
+            text="Seeded search over chains of 1-8 API calls on one lineage of tree sequences with record_provenance "
+                 "on/off and a virtual clock that jumps between and during calls; after every call the provenance table "
+                 "is compared with a list model (old rows byte-identical plus exactly one valid tsdate record naming the "
+                 "command run and the parameters passed; unchanged when recording is off). Single calls are pure "
+                 "functions of their input: the simulator contributes the chain, the clock and exact replay.",
+            design_ref="DESIGN.md section 4 (C33), 3.6",
+        ),
+        note="Trusted: tskit's provenance schema validator; timestamps and CPU/memory figures are not virtualised and "
+             "are ignored; only parameters the caller passed explicitly are demanded in the record.",
+        technique="deterministic simulation: pipeline-history machine over chained API calls with a virtual clock "
+                  "(jumps during calls), list-of-records reference model checked after every call",
+    ),
+    "C34": dict(
+        engine="pipe",
+        level=dict(
+            category="exploration",
+            text="Seeded search over histories of CLI invocations (in process, every option of both sub-parsers, "
+                 "booleans on and off, invalid combinations) against a real scratch directory whose state persists "
+                 "across invocations and is faulted (truncated / bit-flipped / empty / deleted inputs, pre-existing "
+                 "outputs, output == input); after every operation the directory is compared with the twin Python API "
+                 "call. The option cross-product is configuration exploration; the stateful parts (write no output on "
+                 "error, other files untouched, behaviour on corrupt inputs) are what the sandbox decides.",
+            design_ref="DESIGN.md section 4 (C34), 3.6",
+        ),
+        note="Trusted: the mapping from command-line values to Python values in the oracle (booleans: True/true/1/yes, "
+             "False/false/0/no); output-file write faults cannot be injected (tskit writes in C through real fds).",
+        technique="deterministic simulation: pipeline-history machine on a sandbox directory with seeded input-file "
+                  "faults, twin-API-call oracle after every CLI operation",
+    ),
 }
 
 PENDING = {
     p: "claimed in DESIGN.md section 4 (not a pure function: depends on schedules/faults/histories) but its check is "
        "not built yet at this commit; listed here only so that every property is accounted for"
-    for p in ("C33", "C34")
+    for p in ()
 }
 
 
